@@ -5,7 +5,7 @@
     modelled, not verified; their observed rules are listed in the evidence and held to the code by the
     correspondence C16 on several thousand mutated documents per run). *)
 From Coq Require Import ZArith QArith String List Bool.
-From Texel Require Import Tms.Json Tms.Model Tms.ProofsC16 Tms.ProofsC16b Tms.ProofsC16c Tms.ProofsC16d.
+From Texel Require Import Tms.Json Tms.Model Tms.ProofsC16 Tms.ProofsC16b Tms.ProofsC16c Tms.ProofsC16d Tms.F64Facts.
 From Texel.Gen Require Import ConstsGen TmsData.
 Import ListNotations.
 Open Scope Z_scope.
@@ -29,6 +29,13 @@ Theorem C16_decode_encode_decode : forall j t, decodeTMS j = Ok t -> tms_stable 
   decodeTMS (encodeTMS t) = Ok (norm_tms t).
 Proof. exact decode_encode_decode_lemma. Qed.
 Print Assumptions C16_decode_encode_decode.
+
+(** the same with the readable sufficient condition: all unsigned members (tile and matrix sizes, variable matrix
+    width members) are below 2^53 ([tms_small]) -- binary64 represents them exactly *)
+Theorem C16_decode_encode_decode_small : forall j t, decodeTMS j = Ok t -> tms_small t ->
+  decodeTMS (encodeTMS t) = Ok (norm_tms t).
+Proof. intros j t H S. exact (decode_encode_decode_lemma j t H (tms_small_stable t S)). Qed.
+Print Assumptions C16_decode_encode_decode_small.
 
 (** ... the encoding does not see that identification, so it is stable: encode (decode (encode v)) = encode v ... *)
 Theorem C16_encode_stable : forall j t, decodeTMS j = Ok t -> tms_stable t ->
